@@ -43,7 +43,7 @@ def obligations(tier):
         grid=[{"NM": 2, "NR": 2}] if q else [{"NM": 2, "NR": 2}, {"NM": 3, "NR": 3}],
         unwind_default=lambda p: p["NM"] + 6 * p["NR"] + 20,
         unwind={"qmail_errstr": 7},
-        timeout=900,
+        timeout=900 if q else 2400,
         functions=["qmail.c:qmail_open", "qmail.c:qmail_qp", "qmail.c:qmail_fail", "qmail.c:qmail_put", "qmail.c:qmail_from",
                    "qmail.c:qmail_to", "qmail.c:qmail_errstr", "qmail.c:qmail_close", "qmail.c:setup_qqargs", "substdio.c:substdio_fdbuf"],
         stubs=["pipe/fork/close/fd_move/chdir/execv/wait_pid/env_get: descriptor table + symbolic failures, both sides of fork",
@@ -60,7 +60,7 @@ def obligations(tier):
         progs=[Prog("received.c")], sysrename=["time"],
         grid=[{"SL": 3}] if q else [{"SL": 3}, {"SL": 4}, {"SL": 5}],
         unwind_default=lambda p: 5 * p["SL"] + 84,
-        timeout=900,
+        timeout=900 if q else 2400,
         functions=["received.c:received", "received.c:safeput", "received.c:issafe"],
         cuts=["qmail_put -> recorder (contract: qmail_unit)", "datetime_tai/date822fmt -> fixed 5-byte date (C20 range lemma)"],
         stubs=["time(): constant"],
@@ -74,10 +74,10 @@ def obligations(tier):
         sysrename=["_exit", "time"],
         grid=[{"DB": d} for d in ([0, 1, 3] if q else [0, 1, 2, 3])],
         unwind_default=12, unwind={"substdio_put": 100},
-        timeout=900,
+        timeout=900 if q else 2400,
         functions=["qmail-smtpd.c:smtp_data", "qmail-smtpd.c:put", "qmail-smtpd.c:acceptmessage", "qmail-smtpd.c:out", "qmail-smtpd.c:err_*",
                    "fmt_ulong.c:fmt_ulong"],
-        cuts=["blast -> NB<=4 body bytes through the real put() + arbitrary hop count (blast itself: C05 / thorough blast_hops)",
+        cuts=["blast -> NB<=4 body bytes through the real put() + arbitrary hop count (blast itself: C05; hop counter: opt-in obligation blast_hops below)",
               "qmail_open/put/fail/from/close -> contract proved by qmail_unit (sticky failure flag; \"\" iff flag clear and exit 0)",
               "received -> marker (received_safe)"],
         stubs=["substdio on ssout: ideal stream", "time(): constant"],
@@ -108,7 +108,7 @@ def obligations(tier):
         progs=[Prog("qmail-qmqpd.c", sub=[(r"^main\(\)", "qmqpd_main()", 1)])],
         repo=["fmt_ulong.c", "fmt_str.c", "byte_chr.c"], lib=["ideal_substdio.c"],
         sysrename=["_exit", "read", "write", "alarm", "chdir", "time"],
-        timeout=1500,
+        timeout=1500 if q else 3000,
         functions=["qmail-qmqpd.c:main", "qmail-qmqpd.c:getlen", "qmail-qmqpd.c:getbyte", "qmail-qmqpd.c:getcomma", "qmail-qmqpd.c:getbuf",
                    "qmail-qmqpd.c:identify", "qmail-qmqpd.c:saferead", "fmt_ulong.c", "fmt_str.c", "byte_chr.c"],
         cuts=["qmail_open/put/from/to/fail/close -> contract proved by qmail_unit", "received -> marker (received_safe)"],
@@ -172,7 +172,7 @@ def obligations(tier):
         repo=["fmt_ulong.c", "fmt_str.c", "stralloc_opys.c", "stralloc_opyb.c", "stralloc_pend.c", "byte_copy.c"],
         lib=["arena_stralloc.c"],
         sysrename=["_exit", "read", "write", "alarm", "chdir", "time"],
-        timeout=1500,
+        timeout=1500 if q else 3000,
         functions=["qmail-qmtpd.c:main", "qmail-qmtpd.c:getlen", "qmail-qmtpd.c:getcomma", "qmail-qmtpd.c:saferead", "fmt_ulong.c", "fmt_str.c",
                    "stralloc_opys.c", "stralloc_opyb.c", "stralloc_pend.c"],
         cuts=["qmail_open/put/from/to/fail/close -> contract proved by qmail_unit", "received -> marker (received_safe)",
@@ -184,8 +184,8 @@ def obligations(tier):
         defines={"ARENA_CAP": 16, "ARENA_SLOTS": 1},
         grid=[{"N": n, "DB": 0} for n in (range(0, 11) if q else range(0, 14))],
         unwind_default=lambda p: p["N"] + 3,
-        # the per-package loop: a second package is started (it reads the EOF) but can never be completed inside the bound,
-        # which the unwinding assertion proves; the more specific key (inner length loop) must come first
+        # the per-package loop runs twice: the second round only meets the end of input (read() stub: the client is gone once the
+        # queue connection was closed), which the unwinding assertion proves
         unwind=lambda p: qmtp_unw(p["N"]),
         assumes=["the client sends exactly N arbitrary bytes and disconnects; databytes = DB; qmail-queue outcome ok/permanent/temporary; "
                  "one write failure anywhere; RELAYCLIENT unset or set"],
